@@ -97,9 +97,14 @@ func planFor(prop, tier string) plan {
 			p.variants = []string{"open"}
 			p.steps = 4500
 		}
-	case "C03", "C01", "C11", "C13":
+	case "C01", "C11", "C13":
 		if tier == "quick" {
 			p.steps = 3500
+		}
+	case "C03":
+		if tier == "quick" {
+			p.variants = []string{"default", "prefix"} // "prefix" carries rows that only a genesis file can create
+			p.steps = 2200
 		}
 	case "C05":
 		if tier == "quick" {
